@@ -147,7 +147,7 @@ func (u *Unit) frameWrite(hn string, ref Term, lo, hi *Term, what string) {
 
 // frameGhostWrite: a ghost scalar (or the callback log) is written.
 func (u *Unit) frameGhostWrite(name string) {
-	if !u.frameOn || u.frameOff > 0 || name == "nextRef" {
+	if !u.frameOn || u.frameOff > 0 || name == "nextRef" || name == "allocated" {
 		return
 	}
 	if u.frameGhost[name] {
